@@ -59,6 +59,9 @@ pub struct LargeEnc {
     /// masks modulo the period, equal sizes and, often, equal sums
     #[serde(default)]
     pub lift: bool,
+    /// the exponential encoder is run whatever its size (the one fixed case with a product above 2^20)
+    #[serde(default)]
+    pub force_exp: bool,
 }
 
 #[derive(Clone, Debug, serde::Serialize, serde::Deserialize)]
@@ -194,7 +197,7 @@ impl Encodings {
             rec.class(&format!("large-with-optional-hub-attackers-exp-{}", if exp_clauses > EXP_LIMIT { "skipped" } else { "encoded" }));
         }
         for enc in ENCODERS {
-            if enc == Enc::ExpCo && exp_clauses > EXP_LIMIT {
+            if enc == Enc::ExpCo && exp_clauses > EXP_LIMIT && !c.force_exp {
                 continue;
             }
             for with_range in [false, true] {
@@ -738,20 +741,20 @@ impl Prop for Encodings {
             .prop_flat_map(|n| {
                 (Just(n), vec((any::<u16>(), any::<u16>()), 0..=(2 * n)), prop_oneof![2 => Just(0u8), 1 => 6u8..24, 1 => 30u8..90], any::<bool>(), vec(any::<u16>(), 0..=4), vec(any::<u64>(), 4..=12))
             })
-            .prop_map(|(n, att, hub_attackers, via_iccma, dups, probes)| EncAny::Large(LargeEnc { n, att, hub_attackers, via_iccma, dups, probes, period: 0, lift: false }));
+            .prop_map(|(n, att, hub_attackers, via_iccma, dups, probes)| EncAny::Large(LargeEnc { n, att, hub_attackers, via_iccma, dups, probes, period: 0, lift: false, force_exp: false }));
         // 64-320 arguments whose attacks run between a dozen residues modulo 32 or 64 on several floors
         let residue = (prop_oneof![1 => Just(32u8), 3 => Just(64u8)], 2usize..=5, 0usize..3)
             .prop_flat_map(|(period, floors, extra)| {
                 let n = period as usize * floors + extra;
                 (Just(n), Just(period), vec((any::<u16>(), any::<u16>()), 20..=(12 * floors * 3)), any::<bool>(), vec(any::<u16>(), 0..=3), vec(any::<u64>(), 4..=8))
             })
-            .prop_map(|(n, period, att, via_iccma, dups, probes)| EncAny::Large(LargeEnc { n, att, hub_attackers: 0, via_iccma, dups, probes, period, lift: false }));
+            .prop_map(|(n, period, att, via_iccma, dups, probes)| EncAny::Large(LargeEnc { n, att, hub_attackers: 0, via_iccma, dups, probes, period, lift: false, force_exp: false }));
         let lifted = (prop_oneof![1 => Just(32u8), 3 => Just(64u8)], 2usize..=4, 0usize..3)
             .prop_flat_map(|(period, floors, extra)| {
                 let n = period as usize * floors + extra;
                 (Just(n), Just(period), vec((any::<u16>(), any::<u16>()), 6..=22), any::<bool>(), vec(any::<u64>(), 4..=8))
             })
-            .prop_map(|(n, period, att, via_iccma, probes)| EncAny::Large(LargeEnc { n, att, hub_attackers: 0, via_iccma, dups: vec![], probes, period, lift: true }));
+            .prop_map(|(n, period, att, via_iccma, probes)| EncAny::Large(LargeEnc { n, att, hub_attackers: 0, via_iccma, dups: vec![], probes, period, lift: true, force_exp: false }));
         prop_oneof![80 => small, 2 => large, 1 => residue, 1 => lifted].boxed()
     }
     fn n_cases(&self, tier: Tier) -> u32 {
@@ -765,7 +768,27 @@ impl Prop for Encodings {
                 v.push(EncAny::Small(EncCase { gc: GraphCase { g, pres: Pres::Direct { offset: 0, order_keys: vec![] } }, warmup: None }));
             }
         }
-        (v, format!("all digraphs on 0..={} arguments x 7 encoders x plain/range", max))
+        // one framework whose exponential encoding has more than 2^20 clauses for one argument: x attacked by
+        // four arguments, each attacked by 33 optional defenders (33^4 = 1 185 921 defence tuples)
+        {
+            let (nb, nd) = (4u16, 33u16);
+            let mut att: Vec<(u16, u16)> = vec![];
+            let first_d = 1 + nb;
+            let first_p = first_d + nb * nd;
+            for b in 0..nb {
+                att.push((1 + b, 0));
+                for j in 0..nd {
+                    let d = first_d + b * nd + j;
+                    let p = first_p + b * nd + j;
+                    att.push((d, 1 + b));
+                    att.push((d, p));
+                    att.push((p, d));
+                }
+            }
+            let n = (first_p + nb * nd) as usize;
+            v.push(EncAny::Large(LargeEnc { n, att, hub_attackers: 0, via_iccma: false, dups: vec![], probes: vec![1, 2, 3, 4], period: 0, lift: false, force_exp: true }));
+        }
+        (v, format!("all digraphs on 0..={} arguments x 7 encoders x plain/range; one framework of 269 arguments whose exp encoding has 33^4 > 2^20 clauses for one argument", max))
     }
     fn run(&self, any: &EncAny, rec: &mut Rec) -> CheckResult {
         let ecase = match any {
